@@ -226,6 +226,35 @@ def run_check(tier, seed):
             run.add_violation("oracle", {"stream": "closed_stdout", "what": "panic when stdout is a closed pipe", "described": {"argv": argv}, "rc": p.returncode,
                                          "stderr": p.stderr.decode("utf-8", "replace")[:400]}, True)
 
+    # ---------------- stream 3c: documents whose precedence order omits levels, with operations that address the omitted levels
+    # (by name and through the section index): every combination must end cleanly
+    st = run.streams.setdefault("partial_precedence_orders", {"cases": 0, "exit0": 0})
+    full = list(zgen.DEFAULT_PREC)
+    orders = [[], ["Core", "ExtraCore", "Build"], ["Build", "ExtraCore", "Core"], ["Major"], ["Patch", "Minor", "Major"], ["PreReleaseNum", "PreReleaseLabel"], ["Post", "Dev"], full[::-1], full[:5], full[5:]]
+    for _ in range(6 if q else 40):
+        o = list(full)
+        rng.shuffle(o)
+        orders.append(o[:rng.randint(0, len(o))])
+    schema = {"core": [("v", "Major"), ("v", "Minor"), ("v", "Patch")], "extra": [("v", "Epoch"), ("v", "PreRelease"), ("v", "Post"), ("v", "Dev")], "build": [("s", "b"), ("u", 7)]}
+    vars_ = {"major": 1, "minor": 2, "patch": 3, "epoch": 1, "pre": ("rc", 4), "post": 5, "dev": 6}
+    docs = ron_texts([(dict(schema, prec=o), dict(zgen.rand_vars(rng), **{k: v for k, v in vars_.items() if k in ("major", "minor", "patch", "post", "dev", "epoch")})) for o in orders])
+    ops = [["--bump-core=0"], ["--bump-core=~1=2"], ["--bump-core=1"], ["--bump-extra-core=0"], ["--bump-extra-core=2"], ["--bump-extra-core=3=0"], ["--bump-build=1"], ["--core=0=9"], ["--extra-core=2=1"],
+           ["--bump-major"], ["--bump-minor"], ["--bump-patch"], ["--bump-post"], ["--bump-dev"], ["--bump-epoch"], ["--bump-pre-release-num"], ["--bump-pre-release-label=beta"],
+           ["--major=4", "--bump-patch"], ["--bump-core=0", "--bump-extra-core=2", "--bump-build=1"]]
+    oj = []
+    for d in docs:
+        for op in (ops if not q else rng.sample(ops, 9)):
+            oj.append((["version", "--source=stdin", "--output-format=" + rng.choice(["semver", "pep440", "zerv"])] + op, d.encode()))
+    ores = run_procs(oj, timeout=60)
+    for (argv, inp), (rc, out, err) in zip(oj, ores):
+        st["cases"] += 1
+        run.evaluations += 1
+        st["exit0"] += rc == 0
+        bad = discipline(rc, out, err)
+        if bad:
+            run.add_violation("oracle", {"stream": "partial_precedence_orders", "what": bad, "described": {"argv": argv, "stdin": inp.decode("utf-8", "replace")[:1500]}, "rc": rc,
+                                         "stderr": err.decode("utf-8", "replace")[:400]}, True)
+
     # ---------------- stream 3a: timestamp patterns that look like strftime specifiers, with a timestamp available to format
     st = run.streams.setdefault("percent_timestamp_patterns", {"cases": 0, "exit0": 0})
     pj = []
